@@ -542,13 +542,15 @@ class TimePlaceholder(BasePlaceholder):
     def subscribe_attribute(self, item):
         """Invalidate time placeholders when they are due."""
         current_time = self._machine.clock.get_datetime()
+        # time until the current second is over (a subscription is usually not made at the start of a second)
+        rest_of_second = 1 - current_time.microsecond / 1000000
         if item == "second":
-            return asyncio.sleep(1)
+            return asyncio.sleep(rest_of_second)
         if item == "minute":
-            return asyncio.sleep(60 - current_time.second)
+            return asyncio.sleep(59 - current_time.second + rest_of_second)
         if item in ("hour", "day", "month", "year"):
             # we will reevaluate day, month and year every hour
-            return asyncio.sleep(3600 - current_time.second - 60 * current_time.minute)
+            return asyncio.sleep(3599 - current_time.second - 60 * current_time.minute + rest_of_second)
 
         raise AssertionError("Invalid time element {}".format(item))
 
